@@ -886,6 +886,34 @@ func (a *c12) handedOut(fns []*ssa.Function) {
 				fmt.Sprintf("%s writes %s (%s at %s via %v): memory handed out by getters (GetVendorSpecs/GetErrors/GetDevice) must not change after publication", u.RelName(fn), p, w.Kind, u.InstrPos(w.Deep), w.Chain))
 		}
 	}
+	// no method hands out one of the cache's own containers: the index and error maps are
+	// replaced or refilled under the lock, a caller holding the map itself would read it
+	// (or range over it) while that happens, and would see later states in an old answer
+	nRet, leaked := 0, ""
+	for _, fn := range fns {
+		if fn.Parent() != nil || fn.Signature.Recv() == nil || len(fn.Params) == 0 || !fn.Object().Exported() {
+			continue
+		}
+		if named := ir.NamedOf(fn.Params[0].Type()); named == nil || named.Obj().Name() != "Cache" {
+			continue
+		}
+		for _, ret := range ir.NormalReturns(fn) {
+			for i := range ret.Results {
+				switch ret.Results[i].Type().Underlying().(type) {
+				case *types.Map, *types.Slice:
+				default:
+					continue
+				}
+				nRet++
+				for _, p := range u.PathsOf(ir.ReturnResult(ret, i)) {
+					if par, ok := p.Root.(*ssa.Parameter); ok && par == fn.Params[0] && len(p.Sels) == 1 && p.Sels[0].F != nil {
+						leaked += " " + u.RelName(fn) + " returns c." + p.Sels[0].F.Name() + ";"
+					}
+				}
+			}
+		}
+	}
+	r.Check("C12.4", "containers-not-handed-out", leaked == "" && nRet > 0, "", fmt.Sprintf("exported Cache methods return copies, never the cache's own maps/slices (%d container results examined):%s", nRet, leaked))
 	// the swap idiom: refresh stores fresh maps
 	refresh := a.c.fn("C12.4", "cdi", "(*Cache).refresh")
 	if refresh != nil {
